@@ -43,6 +43,9 @@ SHAPES = {
         ("abcd", dict(f=("alpha", "beta", "gamma", "delta"))), ("dcba", dict(f=("delta", "gamma", "beta", "alpha"))), ("abc", dict(f=("alpha", "beta", "gamma"))),
         ("abce", dict(f=("alpha", "beta", "gamma", "epsilon"))), ("empty", dict(f=())), ("a,b", dict(f=("a,b",))), ("a|b", dict(f=("a", "b"))),
     ]),
+    "union": dict(fields=[("a", "Union[int,str]"), ("w", "int")], values=[
+        ("5|1", dict(a=5, w=1)), ("'5'|1", dict(a="5", w=1)), ("'x'|1", dict(a="x", w=1)), ("6|1", dict(a=6, w=1)), ("'5 w=1'|1", dict(a="5 w=1", w=1)),
+    ]),
     "hdl": dict(fields=[("m", "Instantiable")], values=[("ModA", dict(m="ModA")), ("ModB", dict(m="ModB")), ("R1", dict(m="R1")), ("R2", dict(m="R2")), ("E1", dict(m="E1")), ("E2", dict(m="E2")),
         # calls of an external module with dict parameters: equal dicts written in different key orders, and a different one
         ("D1", dict(m="D1")), ("D1r", dict(m="D1r")), ("D2", dict(m="D2")),
@@ -54,7 +57,7 @@ SHAPES = {
 def make_env():
     """Fresh generator machinery for one scenario: param-classes, generators with body counters, helper objects."""
     import enum
-    from typing import Optional, FrozenSet
+    from typing import Optional, FrozenSet, Union
     import hdl21 as h
     from hdl21.prefix import Prefix
     from decimal import Decimal
@@ -75,7 +78,7 @@ def make_env():
         ns = {}
         for n, t in fields:
             dt = {"str": str, "int": int, "Optional[float]": Optional[float], "float": float, "Enum": En, "Inner": Inner, "Prefixed": h.Prefixed,
-                  "Scalar": h.Scalar, "Instantiable": h.Instantiable, "Optional[str]": Optional[str], "Optional[int]": Optional[int], "FrozenSet[str]": FrozenSet[str]}[t]
+                  "Scalar": h.Scalar, "Instantiable": h.Instantiable, "Optional[str]": Optional[str], "Optional[int]": Optional[int], "FrozenSet[str]": FrozenSet[str], "Union[int,str]": Union[int, str]}[t]
             ns[n] = h.Param(dtype=dt, desc=n)
         return h.paramclass(type("P", (), ns))
 
